@@ -59,7 +59,7 @@ PROPS = {
         ],
     ),
     'C03': dict(
-        verus=['tile_bbox', 'filters', 'overlay', 'converter', 'pmtiles_reader'],
+        verus=['tile_bbox', 'filters', 'overlay', 'converter', 'pmtiles_reader', 'versatiles_reader'],
         kani=['pyramid'],
         not_decided=[
             'MBTiles MIN/MAX SQL estimate-then-refine', 'tar/directory file-name parsing that feeds include_coord',
@@ -86,15 +86,15 @@ PROPS = {
         ],
     ),
     'C16': dict(
-        verus=['pmtiles_dir', 'varint_pbf', 'pmtiles_reader'],
+        verus=['pmtiles_dir', 'varint_pbf', 'pmtiles_reader', 'versatiles_reader'],
         kani=['pmtiles_codec', 'versatiles_codec'],
         not_decided=[
             'MBTiles zoom gaps (SQL), ./-prefixed tar members (string code)',
-            'reader descent through root + leaf directories (async, cache)', 'sparse block index lookup in the async reader body',
+            'reader descent through root + leaf directories (async, cache)',
         ],
     ),
     'C19': dict(
-        verus=['varint_pbf', 'pmtiles_dir', 'filters', 'converter', 'vector_tile_tables', 'pmtiles_reader', 'vector_tile_feature', 'convert_cli'],
+        verus=['varint_pbf', 'pmtiles_dir', 'filters', 'converter', 'vector_tile_tables', 'pmtiles_reader', 'vector_tile_feature', 'convert_cli', 'versatiles_reader'],
         kani=['pmtiles_codec', 'versatiles_codec', 'geo'],
         not_decided=[
             'JSON / TileJSON / CSV / VPL text parsers (String, nom, core::fmt: outside both verifiers; Kani probes timed out)',
